@@ -72,6 +72,7 @@ type C16Plan struct {
 	// diff/merge specifics
 	Edits  []Edit `json:"edits,omitempty"`
 	Edits2 []Edit `json:"edits2,omitempty"`
+	Consumer string `json:"consumer,omitempty"` // merge: "" drain first | "early" ask for columns right after the first message
 }
 
 func init() {
@@ -102,6 +103,7 @@ func init() {
 				e1, e2 := genDisjointEdits(r.Sub("e2"), cols, pk, p.Synth.N)
 				if p.Kind == "merge" {
 					p.Edits, p.Edits2 = e1, e2
+					p.Consumer = Pick(r, []string{"", "early"})
 				}
 				if r.Chance(0.4) {
 					p.Faults = append(p.Faults, &Fault{Op: Pick(r, []string{"get", "get", "read", "any"}), Prefix: Pick(r, []string{"", "blkidx/", "blk/", "tblidx/"}), Nth: r.Range(1, 8)})
@@ -111,7 +113,7 @@ func init() {
 			if r.Chance(0.35) {
 				nf := r.Range(1, 2)
 				for i := 0; i < nf; i++ {
-					p.Faults = append(p.Faults, &Fault{Op: Pick(r, []string{"set", "set", "write", "any"}), Prefix: Pick(r, []string{"", "blk/", "blkidx/", "tbl/", "tblidx/"}), Nth: r.Range(1, 6)})
+					p.Faults = append(p.Faults, &Fault{Op: Pick(r, []string{"set", "set", "write", "any"}), Prefix: Pick(r, []string{"", "blk/", "blkidx/", "tbl/", "tblidx/"}), Nth: r.Range(1, 6), Sticky: r.Chance(0.4)})
 				}
 			}
 			return p
@@ -326,7 +328,7 @@ func execC16Merge(t *testing.T, p *C16Plan, res *Result) {
 		done := make(chan struct{})
 		go func() {
 			defer close(done)
-			out, merr = runMerge(t, st, base, [][]byte{b1, b2}, 0, "blocks", p.Cfg.Workers)
+			out, merr = runMerge(t, st, base, [][]byte{b1, b2}, 0, "blocks", p.Cfg.Workers, p.Consumer)
 			*mainDone = true
 		}()
 		sc.Run(done)
